@@ -9,6 +9,8 @@ import Bermuda.Lemmas.UnitsDisagg
 import Bermuda.Lemmas.UnitsBridge
 import Bermuda.Lemmas.UnitsTiling
 import Bermuda.Lemmas.UnitsAggregate
+import Bermuda.Lemmas.UnitsRoundtrip
+import Bermuda.Lemmas.UnitsExample
 import Bermuda.Spec.C18
 namespace Bermuda.Properties.C18
 open Bermuda Bermuda.Units Bermuda.Spec.C18
@@ -307,9 +309,9 @@ Unless the triangle was returned as is:
   observable sub-period, is a CumulativeCell, and every selected field whose rule is "sum of itself"
   reads (C09's `at`, in-range index) the input cell's value;
 * every input cell with an observable sub-period has such an aggregated cell.
-Not included (the OPEN statement below): that each such cell occurs exactly once ACROSS slices (per
-slice: `aggregate_disagg_slice_keys`), that the aggregated cell has exactly the selected keys, and
-the bridge to the executable `aggBackSpec`. -/
+This is the `at`-reading form, field by field (no assumption on the other fields); the full statement
+— exactly once across slices, exact key sets, equal values, order, `aggBackSpec` — is
+`aggregate_disagg` below. -/
 theorem aggregate_disagg_partial {tr : Transc} {t out back : List Cell} {res : Nat}
     {weights : Option (List Num)} {fields : Option (List String)} {L : Int}
     {origin : Date} {a : AggArgs}
@@ -334,17 +336,103 @@ theorem aggregate_disagg_partial {tr : Transc} {t out back : List Cell} {res : N
   · exact .inr (aggregate_disagg_core hwf hL hws hcore hov hoe hgrid
       (rfl : standardizeResolution L "month" = .ok (L, .month)) hp he ho hagg)
 
--- OPEN aggregate_disagg
---   … → back = the cells of t with an observable sub-period, restricted to the selected fields, as
---   CumulativeCells; equivalently Spec.C18.aggBackSpec res fields 0 t back = true
--- Proved: `aggregate_disagg_partial` (above) and, per slice, `aggregate_disagg_slice` /
--- `aggregate_disagg_slice_keys` (Lemmas/UnitsAggregate.lean: the aggregated coordinates are a
--- permutation of the coordinates of the cells with an observable sub-period).
--- Missing: (1) multiplicity across slices (slices of the disaggregated triangle ↔ input slices with a
--- non-empty group, then `sumTriangles`); (2) the aggregated cell carries exactly the selected keys
--- (C09: keys of `summarizeCellValues` = `valueKeys`) and equal VALUES rather than equal `at`
--- readings (int inputs come back as floats; arrays elementwise); (3) the sorted order used by the
--- zip in `aggBackSpec`. Checked on the implementation by `aggBackSpec` in every run.
+/-- **aggregate_disagg.** Disaggregate a well-formed triangle and aggregate the result back to its own
+resolution with C08's model of `aggregate`: unless the triangle was returned as is (`res` already is
+its resolution), the aggregated triangle `back` IS the input restricted to the cells with an observable
+first sub-period and to the selected fields, as CumulativeCells:
+* `back.map Cell.coord = (t.filter (observable res)).map Cell.coord` — the same cells (metadata,
+  period, evaluation date), each exactly once ACROSS slices, in the same (triangle) order;
+* every cell of `back` is a CumulativeCell;
+* `aggBackSpec … 0 t back = true` (the predicate the driver evaluates on the implementation's output):
+  position by position the aggregated cell carries exactly the selected field names of the input cell
+  and, for each of them, a non-`None` value with exactly the input value's numbers (`vdata`: an int
+  comes back as the equal float, a 0-d array as a 1-element array; arrays elementwise).
+Hypotheses: `t` is a triangle (`Canonical`: sorted, one cell class, valid dates) with canonical
+metadata (sorted detail dicts — what `Triangle(...)`/the wire decoder produce); `disaggWF` (decidable,
+evaluated by the driver on every case) with ONE period resolution `L` in all slices; the aggregation
+is called with `(L, "month")`, no evaluation resolution and a month-end origin on whose `L`-grid all
+period starts lie (the harness passes `first period_start − 1 day`); every selected field that occurs
+in `t` is summarised as "sum of itself" (`ruleOf`; true for all of `DEFAULT_INTERPOLATION_FIELDS`, see
+`aggregate_disagg_default`) and is not exempted by `summarize_premium=False`.
+Proof: `Lemmas/UnitsAggregate.lean` (windows = original periods), `Lemmas/UnitsSig.lean` (the
+conforming sum of equally shaped float parts keeps that shape, so equal `at` readings are equal
+values), `Lemmas/UnitsRoundtrip.lean` (piles, exactly-once across slices, sorted order, Bool bridge). -/
+theorem aggregate_disagg {tr : Transc} {t out back : List Cell} {res : Nat}
+    {weights : Option (List Num)} {fields : Option (List String)} {L : Int}
+    {origin : Date} {a : AggArgs}
+    (hcan : Properties.C01.Canonical t) (hmd : ∀ c ∈ t, c.md.Canon)
+    (hwf : disaggWF res t = true) (hL : ∀ sl ∈ Triangle.slices t, periodResolution sl.2 = .ok L)
+    (hd : disaggregateExperience t res weights fields = .ok out)
+    (hov : origin.valid = true) (hoe : origin.isMonthEnd = true)
+    (hgrid : ∀ c ∈ t, ∃ z : Int, monthToId c.ps = monthToId origin + z * L + 1)
+    (hp : a.periodRes = some (L, "month")) (he : a.evalRes = none) (ho : a.periodOrigin = origin)
+    (hrule : ∀ c ∈ t, ∀ kv ∈ c.values,
+      (fields.getD Generated.Units.defaultInterpolationFields).contains kv.1 = true →
+      ruleOf [] (lowerKey kv.1) = some ⟨.sum, [kv.1]⟩ ∧
+        (a.prem = true ∨ kv.1 ∉ Generated.Summarize.nonLossMetrics))
+    (hagg : aggregate tr out a = .ok back) :
+    out = t ∨
+    (back.map Cell.coord = (t.filter (observable res)).map Cell.coord ∧
+     (∀ o ∈ back, o.kind = .cumulative) ∧
+     aggBackSpec res (fields.getD Generated.Units.defaultInterpolationFields) 0 t back = true) := by
+  rcases disaggregateExperience_core' hd with h1 | ⟨hinc, ws, hws, hcore⟩
+  · exact .inl h1
+  · refine .inr ?_
+    have hst : standardizeResolution L "month" = .ok (L, .month) := rfl
+    obtain ⟨hA, hB, hC⟩ := aggregate_disagg_cells hwf hL hws hcore hov hoe hgrid hst hp he ho hrule hagg
+    have hD := (aggregate_disagg_core hwf hL hws hcore hov hoe hgrid hst hp he ho hagg).2
+    obtain ⟨h1, h2⟩ := aggBack_of_cells hwf hL hcan.1 hmd
+      (prev_none_of_triangle hcan.2.1 hcan.2.2 hinc) hA hB hC hD
+    exact ⟨h1, fun o ho => by obtain ⟨_, _, _, _, _, _, _, hk, _⟩ := hA o ho; exact hk, h2⟩
+
+theorem defaultFields_rules : ∀ f ∈ Generated.Units.defaultInterpolationFields,
+    ruleOf [] (lowerKey f) = some ⟨.sum, [f]⟩ := by decide +kernel
+
+/-- with the default fields and `summarize_premium=True` the rule hypothesis is discharged by the
+regenerated tables (`DEFAULT_INTERPOLATION_FIELDS` × `SUMMARIZE_DEFAULTS`; a table edit that makes one
+of the default fields a weighted average breaks `defaultFields_rules`) -/
+theorem aggregate_disagg_default {tr : Transc} {t out back : List Cell} {res : Nat}
+    {weights : Option (List Num)} {L : Int} {origin : Date} {a : AggArgs}
+    (hcan : Properties.C01.Canonical t) (hmd : ∀ c ∈ t, c.md.Canon)
+    (hwf : disaggWF res t = true) (hL : ∀ sl ∈ Triangle.slices t, periodResolution sl.2 = .ok L)
+    (hd : disaggregateExperience t res weights none = .ok out)
+    (hov : origin.valid = true) (hoe : origin.isMonthEnd = true)
+    (hgrid : ∀ c ∈ t, ∃ z : Int, monthToId c.ps = monthToId origin + z * L + 1)
+    (hp : a.periodRes = some (L, "month")) (he : a.evalRes = none) (ho : a.periodOrigin = origin)
+    (hprem : a.prem = true) (hagg : aggregate tr out a = .ok back) :
+    out = t ∨
+    (back.map Cell.coord = (t.filter (observable res)).map Cell.coord ∧
+     (∀ o ∈ back, o.kind = .cumulative) ∧
+     aggBackSpec res Generated.Units.defaultInterpolationFields 0 t back = true) :=
+  aggregate_disagg (fields := none) hcan hmd hwf hL hd hov hoe hgrid hp he ho
+    (fun _ _ kv _ hf => ⟨defaultFields_rules kv.1 (by simpa using hf), .inl hprem⟩) hagg
+
+/-! non-vacuity of `aggregate_disagg`: a one-year cell, half-year sub-periods with weights 1/4 and 3/4,
+two fields of which one is selected. `List.mergeSort` (well-founded recursion) does not reduce in the
+kernel, so the evaluation is staged: every sort is applied to an already sorted list
+(`List.mergeSort_of_pairwise`), everything else is `decide +kernel` (`Lemmas/UnitsExample.lean`). -/
+
+open Bermuda.Units.Example
+
+/-- non-vacuity of `aggregate_disagg`: every hypothesis holds for the one-year cell `exY` split into
+half-years with weights 1/4, 3/4 and aggregated back to 12 months from 2019-12-31 -/
+theorem exT_roundtrip :
+    exBack.map Cell.coord = (exT.filter (observable 6)).map Cell.coord ∧
+    (∀ o ∈ exBack, o.kind = .cumulative) ∧
+    aggBackSpec 6 Generated.Units.defaultInterpolationFields 0 exT exBack = true := by
+  have h := aggregate_disagg (tr := Transc.id) (t := exT) (out := exOut) (back := exBack) (res := 6)
+    (weights := exW) (fields := none) (L := 12) (origin := ⟨2019, 12, 31⟩) (a := exArgs)
+    ⟨by decide +kernel, by decide +kernel, by decide +kernel⟩ (by decide +kernel) exT_wf
+    (by intro sl hsl; rw [exT_slices] at hsl; simp only [List.mem_singleton] at hsl; subst hsl; exact exT_res)
+    exT_disagg (by decide +kernel) (by decide +kernel)
+    (by intro c hc; simp only [exT, List.mem_singleton] at hc; subst hc; exact ⟨0, by decide +kernel⟩)
+    rfl rfl rfl (by decide +kernel) exOut_agg
+  rcases h with h | h
+  · exact absurd h (by decide +kernel)
+  · exact h
+
+example : exT.filter (observable 6) = exT := by decide +kernel
+
 
 /-! ### 3. accident_quarter_to_policy_year -/
 
